@@ -1,6 +1,7 @@
 """Self-test of the generated guard obligations (translate/py2lean_guards.py + lean/LK/Proofs/Guards*.lean), independent of the
 correspondence harness: each entry rewrites one source line in a scratch copy of lenskit, re-translates, and builds the obligations.
-`break` entries must make the build fail (or the translation impossible); `keep` entries are behaviour-preserving rewrites that must pass.
+`break` entries must make the build fail (or the translation impossible); `keep` entries are behaviour-preserving rewrites that must pass;
+`outside` entries are behaviour-preserving too but leave the translated subset (the check then reports `no-failing-input-found`).
 Restores the generated files afterwards.  usage: guards_selftest.py [/repo/src/lenskit]"""
 import os, shutil, subprocess, sys, tempfile
 ROOT = os.path.dirname(os.path.dirname(os.path.abspath(__file__)))
@@ -44,8 +45,23 @@ CASES = [
  ("C19", "basic/random.py", "        if n < 0 or n > N:\n            n = N", "        if not (0 <= n <= N):\n            n = N", "keep"),
  ("C19", "stochastic/_ranker.py", "        if n < 0 or n > N:\n            n = N", "        if not (0 < n <= N):\n            n = N", "break"),
 ]
+import py2lean_np, py2lean_scatter
+# other per-run translators: (generated file, obligations module, generator, its Unsupported)
+OTHER = {"C08np": ("NpC08.lean", "LK.Proofs.NpC08", py2lean_np.translate_learn, py2lean_np.Unsupported),
+         "C04sc": ("ScatterC04.lean", "LK.Proofs.ScatterC04", py2lean_scatter.generate, py2lean_scatter.Unsupported)}
+CASES += [
+ ("C08np", "basic/bias.py", "            counts = np.full(ncols, entity_damping(damping, \"item\"))", "            counts = np.zeros(ncols)", "break"),
+ ("C08np", "basic/bias.py", "            centered -= i_bias[ratings.col]\n", "", "break"),
+ ("C08np", "basic/bias.py", "            np.add.at(sums, ratings.row, centered)", "            np.add.at(sums, ratings.col, centered)", "break"),
+ ("C08np", "basic/bias.py", "            np.divide(sums, counts, out=u_bias, where=counts > 0)", "            np.divide(counts, sums, out=u_bias, where=sums > 0)", "break"),
+ ("C08np", "basic/bias.py", "        centered = ratings.data - g_bias\n", "        centered = ratings.data - g_bias\n        _logger.debug(\"centred\")\n", "keep"),
+ ("C04sc", "basic/popularity.py", "        scores[mask] = self.item_scores_[inums[mask]]", "        scores[mask] = self.item_scores_[inums][mask]", "outside"),
+ ("C04sc", "hpf.py", "        item_mask = item_nums >= 0", "        item_mask = item_nums > 0", "break"),
+ ("C04sc", "funksvd.py", "        i_feats = self.item_features_[item_nums[item_mask], :]", "        known = item_nums[item_mask]\n        i_feats = self.item_features_[known, :]", "keep"),
+]
 def build(pid):
-    r = subprocess.run(["lake", "build", f"LK.Proofs.Guards{pid}"], cwd=LEAN, capture_output=True, text=True)
+    mod = OTHER[pid][1] if pid in OTHER else f"LK.Proofs.Guards{pid}"
+    r = subprocess.run(["lake", "build", mod], cwd=LEAN, capture_output=True, text=True)
     return r.returncode == 0
 bad = 0
 for pid, rel, old, new, want in CASES:
@@ -55,13 +71,16 @@ for pid, rel, old, new, want in CASES:
         f = os.path.join(tmp, "lenskit", rel); text = open(f).read()
         assert old in text, (pid, rel, "pattern not found")
         open(f, "w").write(text.replace(old, new, 1))
-        target = os.path.join(LEAN, "LK", "Generated", f"Guards{pid}.lean"); keep = open(target).read()
+        target = os.path.join(LEAN, "LK", "Generated", OTHER[pid][0] if pid in OTHER else f"Guards{pid}.lean"); keep = open(target).read()
+        gen = (lambda: OTHER[pid][2](os.path.join(tmp, "lenskit"))) if pid in OTHER else (lambda: g.generate(pid, os.path.join(tmp, "lenskit")))
+        uns = OTHER[pid][3] if pid in OTHER else g.Unsupported
         try:
-            try: open(target, "w").write(g.generate(pid, os.path.join(tmp, "lenskit"))); ok = build(pid); how = "obligations " + ("hold" if ok else "fail")
-            except g.Unsupported as e: ok = False; how = "untranslatable: " + str(e)[:60]
+            try: open(target, "w").write(gen()); ok = build(pid); how = "obligations " + ("hold" if ok else "fail")
+            except uns as e: ok = False; how = "untranslatable: " + str(e)[:60]
         finally:
             open(target, "w").write(keep)
-        verdict = "ok" if ok == (want == "keep") else "UNEXPECTED"
+        # `outside`: behaviour-preserving, but written with constructs the translator does not cover — reported like a broken obligation
+        verdict = "ok" if (ok == (want == "keep") and (want != "outside" or how.startswith("untranslatable"))) else "UNEXPECTED"
         bad += verdict != "ok"
         first = (new.strip().splitlines() or ["(line removed)"])[0][:70]
         print(f"{verdict:10s} {pid} {want:5s} {rel}: {first!r} → {how}")
